@@ -18,7 +18,13 @@ Nss   == {0, 1, 999, 1000, 999999, 1000000, 999999999}
 NsEdge == {<<N(106752), 763, 145224194>>, <<N(106752), 763, 500000000>>, <<N(106752), 763, 999999999>>,
            <<N(106752), 764, 0>>, <<N(106752), 764, 1>>, <<N(106752), 86399, 999999999>>,
            <<106751, 85636, 854775807>>, <<106751, 85636, 854775806>>, <<106751, 85636, 0>>, <<106751, 85635, 999999999>>}
-Grid  == {<<d, s, n>> : d \in Days, s \in Secs, n \in Nss} \cup NsEdge
+\* beyond the nanosecond unit's range (second / millisecond / microsecond resolution only): years before
+\* year 0 - which the formatter writes with a sign -, year 0 itself, the last four-digit year and a
+\* five-digit one (proleptic Gregorian calendar, astronomical year numbering as in the calendar library)
+FarDays == {DaysFromCivil(0 - 44, 3, 15), DaysFromCivil(0 - 1, 12, 31), DaysFromCivil(0, 1, 1), DaysFromCivil(0, 2, 29),
+            DaysFromCivil(9999, 12, 31), DaysFromCivil(12345, 6, 7), DaysFromCivil(0 - 9999, 1, 1)}
+FarGrid == {<<d, s, n>> : d \in FarDays, s \in {0, 45296}, n \in {0, 500000000}}
+Grid  == {<<d, s, n>> : d \in Days, s \in Secs, n \in Nss} \cup NsEdge \cup FarGrid
 \* instants further apart than an i64 of nanoseconds can count (292 years)
 FarS  == {<<N(106751), 0, 0>>, <<N(106751), 86399, 999000000>>, <<106751, 0, 0>>, <<106750, 86399, 999000000>>}
 GridS == {<<d, s, n>> : d \in DaysS, s \in {0, 86399}, n \in {0, 999000000}}
@@ -46,6 +52,9 @@ Init ==
     \/ /\ "group" \in Kinds  /\ c \in {[kind |-> "group", a |-> a, b |-> b, k |-> k] :
                                          a \in AllDurs, b \in AllDurs, k \in {N(2), 0, 3}}
     \/ /\ "nat" \in Kinds    /\ c \in {[kind |-> "nat", a |-> a] : a \in AllDurs \cup {NAT}}
+    \* a NaT operand against every VALID date-time of the grid (pre-epoch and far instants included):
+    \* the difference of two date-times and the shift by a NaT duration
+    \/ /\ "nat" \in Kinds    /\ c \in {[kind |-> "natt", t |-> t] : t \in GridS \cup FarS \cup NsEdge}
     \/ /\ "trunc" \in Kinds  /\ c \in {[kind |-> "trunc", t |-> t] : t \in (Grid \ NsEdge) \cup {<<d, 37230, 123456789>> : d \in MonthDates}}
     \/ /\ "tod" \in Kinds    /\ c \in {[kind |-> "tod", h |-> h, mi |-> mi, s |-> s, sub |-> sub] :
                                          h \in {0, 1, 12, 23}, mi \in {0, 30, 59}, s \in {0, 59}, sub \in {0, 1, 123456789, 999999999}}
@@ -64,6 +73,7 @@ Laws ==
     /\ c.kind = "nat"    => TAdd(NAT, c.a) = NAT /\ TSub(NAT, c.a) = NAT /\ DAdd(NAT, c.a) = NAT /\ DAdd(c.a, NAT) = NAT
                             \* ... and every scaling factor, zero included (0 * NaT is not the empty duration)
                             /\ \A k \in {N(2), N(1), 0, 1, 3} : DScale(NAT, k) = NAT
+    /\ c.kind = "natt"   => TDiff(c.t, NAT) = NAT /\ TDiff(NAT, c.t) = NAT /\ TAdd(c.t, NAT) = NAT /\ TSub(c.t, NAT) = NAT
     /\ c.kind = "trunc"  => /\ \A q \in {1, 15, 60, 3600, 21600, 86400} : TruncIsGreatestMultiple(c.t, q)
                             /\ \A dm \in {1, 2, 3, 4, 6, 12} : MonthTruncIsPeriodStart(c.t, dm)
     /\ c.kind = "tod"    => HmsRoundTrip(c.h, c.mi, c.s, c.sub)
@@ -80,6 +90,8 @@ EmitTime ==
         [] c.kind = "group"  -> [op |-> "group", a |-> c.a, b |-> c.b, k |-> c.k,
                                  sum |-> DAdd(c.a, c.b), dif |-> DSub(c.a, c.b), neg |-> DNeg(c.a), scaled |-> DScale(c.a, c.k)]
         [] c.kind = "nat"    -> [op |-> "nat", a |-> c.a, factors |-> <<N(2), N(1), 0, 1, 3>>]
+        [] c.kind = "natt"   -> [op |-> "natt", t |-> c.t, dl |-> TDiff(NAT, c.t), dr |-> TDiff(c.t, NAT),
+                                 sum |-> TAdd(c.t, NAT), dif |-> TSub(c.t, NAT)]
         [] c.kind = "trunc"  -> [op |-> "trunc", t |-> c.t,
                                  secs |-> [q \in {1, 15, 60, 3600, 21600, 86400} |-> TruncSecs(c.t, q)],
                                  days |-> [k \in {2, 7} |-> TruncDays(c.t, k)],
